@@ -39,6 +39,7 @@ declare_tags! {
     Embed = 11_083_081u64,
     Font = 381_561u64,
     ForeignObject = 13_428_975_859_192_539_417u64,
+    Frame = 12_294_730u64,
     Frameset = 402_873_737_561u64,
     H1 = 416u64,
     H2 = 417u64,
